@@ -103,9 +103,43 @@ Definition generate_cli (Q : quirks) (S : schema) (valid : bool) (d : document) 
   | None => GError
   end.
 
-(** ... with the generator of the current tree *)
-Definition generate_real (S : schema) (valid : bool) (d : document) : gen_result :=
-  match load_schema S with
+(** ** deprecated members
+
+    A field or an enum value with a DeprecationReason is listed by the server's __Type.fields /
+    __Type.enumValues resolvers only when the argument includeDeprecated is true (it defaults to
+    false).  The introspection query asks with includeDeprecated: true in both places
+    ([the_query]); [load_schema_q] is [load_schema] with the members the query gets to see. *)
+Record deprecations := { dep_fields : list (name * name);      (* (type, field) *)
+                         dep_values : list (name * name) }.    (* (enum, value) *)
+Record intro_query := { iq_fields_deprecated : bool; iq_values_deprecated : bool }.
+Definition the_query : intro_query := {| iq_fields_deprecated := true; iq_values_deprecated := true |}.
+
+Definition is_dep (l : list (name * name)) (tn x : name) : bool :=
+  existsb (fun p => bytes_eqb (fst p) tn && bytes_eqb (snd p) x) l.
+
+Definition listed_fields (Qy : intro_query) (D : deprecations) (tn : name) (fs : list (name * gqltype)) : list (name * gqltype) :=
+  filter (fun f => iq_fields_deprecated Qy || negb (is_dep (dep_fields D) tn (fst f))) fs.
+Definition listed_values (Qy : intro_query) (D : deprecations) (tn : name) (vs : list name) : list name :=
+  filter (fun v => iq_values_deprecated Qy || negb (is_dep (dep_values D) tn v)) vs.
+
+Definition listed_typedef (Qy : intro_query) (D : deprecations) (d : typedef) : typedef :=
+  match d with
+  | DObj n ifs fs => DObj n ifs (listed_fields Qy D n fs)
+  | DIface n fs => DIface n (listed_fields Qy D n fs)
+  | DEnum n vs => DEnum n (listed_values Qy D n vs)
+  | _ => d
+  end.
+
+(** what the server's introspection lists of [S] *)
+Definition listed_schema (Qy : intro_query) (D : deprecations) (S : schema) : schema :=
+  {| s_query := s_query S; s_mutation := s_mutation S; s_types := map (listed_typedef Qy D) (s_types S) |}.
+
+Definition load_schema_q (Qy : intro_query) (D : deprecations) (S : schema) : option schema :=
+  load_schema (listed_schema Qy D S).
+
+(** ... with the generator of the current tree and the introspection query as it is written *)
+Definition generate_real (D : deprecations) (S : schema) (valid : bool) (d : document) : gen_result :=
+  match load_schema_q the_query D S with
   | Some S' => generate_s S' valid d
   | None => GError
   end.
